@@ -76,6 +76,17 @@ pub fn architectures() -> Vec<Value> {
                "layers": [{"kind": "dense", "out": 6, "act": "leaky", "bias": true},
                           {"kind": "dense", "out": 3, "act": "softmax", "bias": true}],
                "objective": {"kind": "ce"}, "optimizer": {"kind": "adamw", "lr": 0.01, "decay": 0.01}}),
+        // several filters in top-level deconvolution and convolution layers under a stateful optimizer (one state slot each)
+        json!({"name": "deconv-multifilter-adam", "ints": false, "input": [1, 3, 3], "out": 2,
+               "layers": [{"kind": "deconv", "filters": 2, "kernel": [2, 2], "stride": [1, 1], "padding": [0, 0], "act": "tanh"},
+                          {"kind": "conv", "filters": 3, "kernel": [3, 3], "stride": [1, 1], "padding": [0, 0], "act": "tanh"},
+                          {"kind": "dense", "out": 2, "act": "linear", "bias": true}],
+               "objective": {"kind": "mse"}, "optimizer": {"kind": "adam", "lr": 0.01}}),
+        // a dense layer wider than the 64-element blocks the evaluation paths use, and not a multiple of 64
+        json!({"name": "mlp-wide-sgd", "ints": false, "input": [3], "out": 2,
+               "layers": [{"kind": "dense", "out": 100, "act": "tanh", "bias": true},
+                          {"kind": "dense", "out": 2, "act": "linear", "bias": false}],
+               "objective": {"kind": "mse"}, "optimizer": {"kind": "sgd", "lr": 0.01}}),
         // a convolution filter that never fires (negative kernel, non-negative inputs, ReLU): its summed gradient is
         // exactly zero in every group, and the step on it is pure weight decay.  The reference applies the documented
         // SGD rule by hand (`manual_sgd`) instead of calling the optimizer.
@@ -154,11 +165,11 @@ pub fn run_reference(net: &mut Network, arch: &Value, data: &Dataset, updates: &
                     bsum = bg;
                 } else {
                     for (a, b) in wsum.iter_mut().zip(wg.iter()) {
-                        a.add_inplace(b);
+                        add_tensors(a, b);
                     }
                     for (a, b) in bsum.iter_mut().zip(bg.iter()) {
                         if let (Some(a), Some(b)) = (a.as_mut(), b.as_ref()) {
-                            a.add_inplace(b);
+                            add_tensors(a, b);
                         }
                     }
                 }
@@ -373,7 +384,12 @@ fn replay_flags_variant(case: &Value, rep: &mut Report, rng: &mut Rng, kinds: &[
     let arch = flags_arch(kinds, drop);
     let plain = without_dropout(&arch);
     let data = arch_dataset(&arch, n, rng);
-    let vdata = arch_dataset(&arch, usize_of(p, "nval").max(1), rng);
+    // the model evaluates validation data in chunks of an abstract size; the implementation's chunk holds 64 samples:
+    // keep the NUMBER of chunks (and the size of the last one), so that "several chunks" means more than 64 samples
+    let (nval_model, chunk_model) = (usize_of(p, "nval").max(1), p["chunk"].as_u64().unwrap_or(1).max(1) as usize);
+    let chunks = (nval_model + chunk_model - 1) / chunk_model;
+    let nval_impl = if chunks <= 1 { nval_model } else { 64 * (chunks - 1) + (nval_model - chunk_model * (chunks - 1)) };
+    let vdata = arch_dataset(&arch, nval_impl, rng);
     if drop.iter().any(|d| *d) {
         rep.nontrivial(id.clone());
     }
@@ -541,6 +557,11 @@ pub struct RunResult {
 /// validate, predict_batch -- inside a rayon pool of the requested size.
 pub fn run_job(spec: &RunSpec, user_validate_event: bool) -> Result<RunResult, String> {
     let pool = rayon::ThreadPoolBuilder::new().num_threads(spec.threads).build().map_err(|e| e.to_string())?;
+    run_job_in(&pool, spec, user_validate_event)
+}
+
+/// The same job inside a pool the caller owns (so that several jobs can share the worker threads).
+pub fn run_job_in(pool: &rayon::ThreadPool, spec: &RunSpec, user_validate_event: bool) -> Result<RunResult, String> {
     guarded(|| {
         pool.install(|| {
             let mut rng = Rng::new(spec.data_seed);
@@ -769,6 +790,22 @@ pub fn thread_jobs() -> Vec<Value> {
                           {"kind": "dense", "out": 2, "act": "linear", "bias": true}],
                "connect": [[1, 2], [1, 3], [1, 4], [0, 1]], "accumulation": {"skip": "add", "loop": "mean"},
                "objective": {"kind": "mse"}, "optimizer": {"kind": "sgdm", "lr": 0.02, "momentum": 0.7, "dampening": 0.1}}),
+        // the same depth and number of skips as the job above, at other endpoints (anything a worker thread keeps
+        // between calls must not leak from one network into the next)
+        json!({"name": "mlp-other-skips-sgdm", "ints": false, "input": [5], "out": 2,
+               "layers": [{"kind": "dense", "out": 5, "act": "tanh", "bias": true},
+                          {"kind": "dense", "out": 5, "act": "tanh", "bias": true},
+                          {"kind": "dense", "out": 5, "act": "sigmoid", "bias": false},
+                          {"kind": "dense", "out": 5, "act": "tanh", "bias": true},
+                          {"kind": "dense", "out": 5, "act": "tanh", "bias": true},
+                          {"kind": "dense", "out": 2, "act": "linear", "bias": true}],
+               "connect": [[0, 2], [2, 3], [0, 4], [1, 5]], "accumulation": {"skip": "add", "loop": "mean"},
+               "objective": {"kind": "mse"}, "optimizer": {"kind": "sgdm", "lr": 0.02, "momentum": 0.7, "dampening": 0.1}}),
+        // rows of 600 elements in the first dense layer (longer than any block a parallel reduction would use)
+        json!({"name": "mlp-wide-input-adam", "ints": false, "input": [600], "out": 2,
+               "layers": [{"kind": "dense", "out": 4, "act": "tanh", "bias": true},
+                          {"kind": "dense", "out": 2, "act": "linear", "bias": true}],
+               "objective": {"kind": "mse"}, "optimizer": {"kind": "adam", "lr": 0.01}}),
         json!({"name": "fbdense-5loops-adamw-ce", "ints": false, "input": [5], "out": 3, "onehot": true,
                "layers": [{"kind": "feedback", "loops": 5, "acc": "mean", "inskips": true, "outskips": true,
                            "layers": [{"kind": "dense", "out": 5, "act": "tanh", "bias": true, "dropout": 0.2}]},
@@ -809,11 +846,13 @@ pub fn record_threads(seed: u64, tier: &str, trace: &mut Vec<Value>, rep: &mut R
     let jitters = if tier == "thorough" { 6 } else { 2 };
     let mut orders = std::collections::HashSet::new();
     let mut run = 0usize;
+    let mut baselines: Vec<(Value, RunSpec, RunResult)> = Vec::new();
     for job in thread_jobs() {
         let name = str_of(&job, "name").to_string();
         let data_seed = rng.next();
         let (n, batch, epochs) = (rng.range(9, 14) as usize, rng.range(3, 5) as usize, 2usize);
         let mut baseline: Option<RunResult> = None;
+        let mut first_spec: Option<RunSpec> = None;
         for &threads in thread_counts.iter() {
             for _ in 0..jitters {
                 let spec = RunSpec { arch: job.clone(), n, batch, epochs, nval: 70, tol: 3, threads, jitter: rng.next() | 1, data_seed };
@@ -848,11 +887,49 @@ pub fn record_threads(seed: u64, tier: &str, trace: &mut Vec<Value>, rep: &mut R
                             }
                         } else {
                             baseline = Some(res);
+                            first_spec = Some(RunSpec { arch: job.clone(), n, batch, epochs, nval: 70, tol: 3, threads, jitter: spec.jitter, data_seed });
                         }
                         rep.nontrivial(format!("{}:{}:{}", name, threads, spec.jitter));
                     }
                 }
                 rep.cases += 1;
+            }
+        }
+        if let (Some(b), Some(sp)) = (baseline, first_spec) {
+            baselines.push((job.clone(), sp, b));
+        }
+    }
+    // "repeated runs are identical": all jobs one after the other on the SAME worker threads (two rounds, several pool
+    // sizes) must reproduce what each job gave on fresh threads -- nothing a worker keeps may leak between networks
+    for &threads in [1usize, 3, 8].iter() {
+        let pool = match rayon::ThreadPoolBuilder::new().num_threads(threads).build() {
+            Ok(p) => p,
+            Err(_) => continue,
+        };
+        for round in 0..2 {
+            for (job, sp, base) in baselines.iter() {
+                let name = str_of(job, "name").to_string();
+                let spec = RunSpec { arch: job.clone(), n: sp.n, batch: sp.batch, epochs: sp.epochs, nval: sp.nval, tol: sp.tol, threads,
+                                     jitter: rng.next() | 1, data_seed: sp.data_seed };
+                rep.checks += 1;
+                match run_job_in(&pool, &spec, true) {
+                    Err(msg) => {
+                        let _ = verif::take();
+                        rep.mismatch("C05", "job_panicked", &name, json!({"panic": msg, "threads": threads, "shared_pool": true}), &json!({"job": job}));
+                    }
+                    Ok(res) => {
+                        let mut diffs = Vec::new();
+                        if bits_of(&base.train) != bits_of(&res.train) { diffs.push("train loss"); }
+                        if bits_of(&base.val) != bits_of(&res.val) { diffs.push("validation loss"); }
+                        if base.weights != res.weights { diffs.push("final weights"); }
+                        if base.predictions != res.predictions { diffs.push("predict_batch()"); }
+                        if !diffs.is_empty() {
+                            rep.mismatch("C05", "results_depend_on_what_the_worker_threads_ran_before", &name,
+                                         json!({"job": name, "threads": threads, "round": round, "differs": diffs}), &json!({"job": job}));
+                        }
+                        rep.count("shared_pool_runs", 1);
+                    }
+                }
             }
         }
     }
